@@ -32,7 +32,7 @@ fn scenario<const N: usize>() {
 }
 
 //@ ob: C02.O3a
-//@ tier: quick
+//@ tier: thorough
 //@ cap: 1800
 //@ also: C03
 //@ desc: validate_immutable(v, t) <=> t = SHA1(decimal(len v) ":" v), real SHA-1, for every 1-byte value and every target
